@@ -131,13 +131,15 @@ def attach_modules(root, verif, modules=None):
         mod = f[:-3]
         if modules is not None and mod not in modules:
             continue
-        target = os.path.join(root, "fclones", "src", mod + ".rs")
+        # kani/<source module>__<suffix>.rs is a further child module of fclones/src/<source module>.rs
+        src_mod = mod.split("__")[0]
+        target = os.path.join(root, "fclones", "src", src_mod + ".rs")
         if not os.path.exists(target):
             raise InstrumentError("no source file for harness module %s (lost anchor)" % mod)
         shutil.copy(os.path.join(kdir, f), os.path.join(snap, f))
         with open(target, "a") as out:
             out.write('\n#[cfg(kani)]\n#[path = "%s"]\npub(crate) mod verif_%s;\n' % (os.path.join(snap, f), mod))
-        done.append("fclones/src/%s.rs += mod verif_%s" % (mod, mod))
+        done.append("fclones/src/%s.rs += mod verif_%s" % (src_mod, mod))
     return done
 
 
